@@ -598,4 +598,137 @@ def sortedInt : List Int → List Int
   | b :: l => insertInt b (sortedInt l)
 -- --- end T12
 
+/-! --- T15: numpy arrays as `measurements/measurements.py` / `measurements/parities.py` use them (harness/translate_t15.py).
+    A 1-d array is the list of its entries, a 2-d array its list of rows TOGETHER WITH the number of columns (numpy keeps the width of an
+    array without rows: `np.zeros(0).reshape(-1, 3)[:, [5]]` raises IndexError).  dtypes are not modelled beyond `u1` (whose subtraction
+    wraps modulo 256); float rounding is not modelled (`ν`).  Every function is compared with numpy in `harness/prelude_check.py`
+    (ops `t15_*` of the driver). -/
+
+abbrev Arr1 (τ : Type) := List τ
+/-- a 1-d array of dtype `u1` (entries 0..255) -/
+abbrev Arr1U8 := List Int
+
+structure Arr2 (τ : Type) where
+  width : Nat
+  rows : List (List τ)
+  deriving Repr, DecidableEq
+
+/-- `np.frombuffer(s.encode("utf-8"), "u1")` for an ASCII str (documented domain): the character codes -/
+def npFromBufferU1 (s : Str) : Arr1 Int := s.map (fun c => ((c.toNat : Nat) : Int))
+
+/-- `a - k` for a `u1` array and a Python int `0 ≤ k ≤ 255` (the translator checks the literal): wraps modulo 256 -/
+def npSubU8 (a : Arr1 Int) (k : Int) : Arr1 Int := a.map (fun b => Int.fmod (b - k) 256)
+
+/-- `a.astype(int)` of a `u1` array: the same values -/
+def npAstypeInt (a : Arr1 Int) : Arr1 Int := a
+
+/-- `r` consecutive chunks of `w` entries -/
+def npChunks {τ : Type} : Nat → Nat → List τ → List (List τ)
+  | 0, _, _ => []
+  | r + 1, w, xs => xs.take w :: npChunks r w (xs.drop w)
+
+/-- `a.reshape(-1, n)`: ValueError for `n ≤ 0` (`-1, 0` / two unknown dimensions) and when `n` does not divide the size -/
+def npReshapeE {τ : Type} (a : Arr1 τ) (n : Int) : Except Exc4 (Arr2 τ) :=
+  if n ≤ 0 then .error .value
+  else if a.length % n.toNat ≠ 0 then .error .value
+  else .ok ⟨n.toNat, npChunks (a.length / n.toNat) n.toNat a⟩
+
+/-- `A.shape` of a 2-d array -/
+def npShape2 {τ : Type} (A : Arr2 τ) : List Int := [((A.rows.length : Nat) : Int), ((A.width : Nat) : Int)]
+
+/-- `np.ones(k)` (the float 1.0 is rendered as the integer 1; `k ≥ 0` where the code calls it) -/
+def npOnes (k : Int) : Arr1 Int := List.replicate k.toNat 1
+
+/-- `np.fromiter(xs, dtype=int)` -/
+def npFromIterInt (xs : List Int) : Arr1 Int := xs
+
+/-- `A[:, idx]` (fancy indexing of the columns): IndexError for an index outside `-width ≤ i < width` (negative from the end),
+    checked against the WIDTH also when there are no rows -/
+def npTakeColsE {τ : Type} [Inhabited τ] (A : Arr2 τ) (idx : Arr1 Int) : Except Exc4 (Arr2 τ) :=
+  if idx.all (fun i => decide (-((A.width : Nat) : Int) ≤ i) && decide (i < ((A.width : Nat) : Int))) then
+    .ok ⟨idx.length, A.rows.map (fun r => idx.map (fun i => r.getD (if 0 ≤ i then i.toNat else (i + ((A.width : Nat) : Int)).toNat) default))⟩
+  else .error .index
+
+/-- `A.sum(axis=1)` -/
+def npSumAxis1 (A : Arr2 Int) : Arr1 Int := A.rows.map OQ.Py.sum
+
+/-- `a + k`, `a - k`, `a * k`, `a % k` (`k ≠ 0`: the translator checks the literal), `k - a` for an int array and a Python int -/
+def npAddS (a : Arr1 Int) (k : Int) : Arr1 Int := a.map (fun x => x + k)
+def npSubS (a : Arr1 Int) (k : Int) : Arr1 Int := a.map (fun x => x - k)
+def npMulS (a : Arr1 Int) (k : Int) : Arr1 Int := a.map (fun x => x * k)
+def npModS (a : Arr1 Int) (k : Int) : Arr1 Int := a.map (fun x => Int.fmod x k)
+def npRSubS (k : Int) (a : Arr1 Int) : Arr1 Int := a.map (fun x => k - x)
+
+/-- `np.abs(a)` -/
+def npAbs1 (a : Arr1 Int) : Arr1 Int := a.map absInt
+
+/-- `a * b` / `a - b` of two 1-d arrays: numpy broadcasting (equal lengths, or one of length 1), ValueError otherwise -/
+def npZip1E (f : Int → Int → Int) (a b : Arr1 Int) : Except Exc4 (Arr1 Int) :=
+  if a.length = b.length then .ok (List.zipWith f a b)
+  else if a.length = 1 then .ok (b.map (fun y => f (a.headD 0) y))
+  else if b.length = 1 then .ok (a.map (fun x => f x (b.headD 0)))
+  else .error .value
+
+/-- `a / n` (true division of an int array by a Python int).  numpy does NOT raise for `n == 0`: it warns and every entry is nan / ±inf.
+    `.error .zeroDiv` stands for that non-finite result (everything computed from it – `.sum()`, products – is non-finite too); an EMPTY
+    array divided by 0 is the empty array. -/
+def npTrueDivE {ν : Type} [PyNum ν] (a : Arr1 Int) (n : Int) : Except Exc4 (Arr1 ν) :=
+  if n == 0 && !a.isEmpty then .error .zeroDiv else .ok (a.map (fun x => ((x : Int) : ν) / ((n : Int) : ν)))
+
+/-- `a.sum()` of an int array -/
+def npSum1 (a : Arr1 Int) : Int := OQ.Py.sum a
+
+/-- `np.array(xs)` of a list of numbers -/
+def npArray1 {τ : Type} (xs : List τ) : Arr1 τ := xs
+
+/-- `np.zeros((r, c))` -/
+def npZeros2 {ν : Type} [PyNum ν] (r c : Int) : Arr2 ν :=
+  ⟨c.toNat, List.replicate r.toNat (List.replicate c.toNat ((0 : Int) : ν))⟩
+
+/-- `A[i, j]`: IndexError outside, negative indices from the end -/
+def npGet2E {τ : Type} (A : Arr2 τ) (i j : Int) : Except Exc4 τ :=
+  (indexE A.rows i).bind (fun r => indexE r j)
+
+/-- `A[i, j] = v` once `A[i, j]` has been read (`npGet2E`; where the read raises the store raises too and is not reached) -/
+def npSet2 {τ : Type} (A : Arr2 τ) (i j : Int) (v : τ) : Arr2 τ :=
+  match indexE A.rows i with
+  | .ok r => ⟨A.width, listSet A.rows i (listSet r j v)⟩
+  | .error _ => A
+
+/-- `x[:, np.newaxis]` (a column) and `x[np.newaxis, :]` (a row) -/
+def npCol {τ : Type} (x : Arr1 τ) : Arr2 τ := ⟨1, x.map (fun v => [v])⟩
+def npRow {τ : Type} (x : Arr1 τ) : Arr2 τ := ⟨x.length, [x]⟩
+
+/-- numpy's broadcast of one dimension: equal, or one of them 1 -/
+def npBDim (a b : Nat) : Option Nat := if a = b then some a else if a = 1 then some b else if b = 1 then some a else none
+
+/-- a dimension of size 1 stretched to `n` -/
+def npStretch {τ : Type} (n : Nat) (xs : List τ) : List τ :=
+  if xs.length = n then xs else match xs with
+    | [x] => List.replicate n x
+    | _ => xs
+
+/-- `A op B` of two 2-d arrays with broadcasting: ValueError when a dimension differs and neither is 1 -/
+def npZip2E {τ : Type} (f : τ → τ → τ) (A B : Arr2 τ) : Except Exc4 (Arr2 τ) :=
+  match npBDim A.rows.length B.rows.length, npBDim A.width B.width with
+  | some r, some c =>
+    .ok ⟨c, List.zipWith (fun ra rb => List.zipWith f (npStretch c ra) (npStretch c rb)) (npStretch r A.rows) (npStretch r B.rows)⟩
+  | _, _ => .error .value
+
+/-- `A / d` of a float / complex 2-d array by a Python int: numpy does not raise for `d == 0`; the entries are then non-finite (`none`) -/
+def npDivS2 {ν : Type} [PyNum ν] (A : Arr2 ν) (d : Int) : Arr2 (Option ν) :=
+  ⟨A.width, A.rows.map (fun r => r.map (fun x => if d == 0 then none else some (x / ((d : Int) : ν))))⟩
+
+/-- `enumerate(xs)` -/
+def enumerate {τ : Type} (xs : List τ) : List (Int × τ) := xs.zipIdx.map (fun p => (((p.2 : Nat) : Int), p.1))
+
+/-- `np.array([*rows])` of a list of int tuples: a 2-d array when all tuples have one length (ValueError otherwise: inhomogeneous
+    shape); for NO tuple at all numpy builds a 1-d empty array, on which `[:, idx]` raises IndexError – that case is the separate
+    constructor `none` of the result. -/
+def npArrayRowsE (rows : List (List Int)) : Except Exc4 (Option (Arr2 Int)) :=
+  match rows with
+  | [] => .ok none
+  | r :: rs => if rs.all (fun x => x.length == r.length) then .ok (some ⟨r.length, rows⟩) else .error .value
+-- --- end T15
+
 end OQ.Py
